@@ -759,6 +759,17 @@ class World:
         for rid in list(self.req):
             if rid not in live:
                 del self.req[rid]
+        held_by = {}
+        for ip, rid in sorted(vips.items()):
+            if rid in held_by and rid in live:
+                self.fail('C14:netsvc-request-holds-two-ips' + (
+                    ':id-requested-again-before-its-delete-was-processed'
+                    if rid in self.raced else ''),
+                          'request %s holds %s and %s: a repeat did not keep '
+                          'its ip (after %s)' % (rid, held_by[rid], ip,
+                                                 op['op']))
+                return
+            held_by[rid] = ip
         holders = {}
 
         def prov(*rids):
